@@ -68,6 +68,7 @@ type oracle struct {
 	truncations          int
 	snapConfChecked      int
 	snapConfUnknown      int
+	snapConfLearnerSelf  int
 	knownPanics          map[string]bool
 	excludedPanics       int
 }
@@ -153,6 +154,24 @@ func (o *oracle) HandOut(s *raftsim.Sim, r *raftsim.Replica, sn pb.Snapshot, ent
 				}
 				if f2, ok2 := o.foldTo(m.Index, boot); ok2 && f2.Matches(m.ConfState) {
 					okc = true
+				}
+			}
+			if !okc {
+				// a replica that was STARTED as learner knows itself as learner from its first step
+				// (raft.StartNode puts it into Config.learners), before the AddLearner entry that
+				// announces it is applied: a snapshot it takes of a prefix that ends before that
+				// entry already lists it. The later AddLearner is then a no-op; nothing is applied
+				// differently. (First met at VERIF_SEED=3 once the learner findings were repaired
+				// and such replicas could catch up, lead and hand their own snapshots on.)
+				f3, _ := o.foldTo(m.Index, nil)
+				for _, x := range s.Reps {
+					if x != nil && x.Learner && !f3.Voters[x.ID] {
+						f3.Learners[x.ID] = true
+					}
+				}
+				if f3.Matches(m.ConfState) {
+					okc = true
+					o.snapConfLearnerSelf++
 				}
 			}
 			if !okc {
